@@ -223,9 +223,18 @@ def cases(draw):
         pr = b.new_param(draw(gen.logfl(0.2, 5)))
         tree = ["add", ["mul", gen.sym(pr), gen.sym(a)], gen.num(0.5)]
         b.species.append("Rq")
+        extra = []
+        if draw(st.booleans()):
+            # a second rule listed *before* the one it reads from: in one pass it sees the incoming value of Rq (the
+            # rate equations are "rules once in declaration order, then the rates" - evaluated afresh at every point)
+            wtree = ["add", ["mul", gen.sym("Rq"), gen.sym("Rq")], gen.num(0.25)]
+            b.species.append("Rw")
+            b.rules.append({"type": "assignment", "eq": f"Rw = {ref.show(wtree)}", "freq": "repeated", "tree": wtree, "dest": "Rw"})
+            b.reactions.append(gen.massaction(b, [a, "Rw"], ["Rw"], k=b.value_entry(gen.logfl(0.1, 10))))
+            extra = ["Rw"]
         b.rules.append({"type": "assignment", "eq": f"Rq = {ref.show(tree)}", "freq": "repeated", "tree": tree, "dest": "Rq"})
         b.reactions.append(gen.massaction(b, [c, "Rq"], ["Rq"], k=b.value_entry(gen.logfl(0.1, 10))))
-        species = species + ["Rq"]
+        species = species + ["Rq"] + extra
     sp = b.spec({s: 1.0 for s in species})
     # every numeric entry becomes a named parameter so that each one can be addressed by name
     k = 0
